@@ -77,8 +77,8 @@ CLAIMED['C18'] = dict(
           'with one DOM reader object, serialisation twice, ==, repr, iteration, generate_stats) are abstractly executed; no '
           'mutation event may have a SHARED receiver (module/class-level container, mutable default); separately created '
           'trees and the sections of one tree share no mutable container; a reused DOM reader/writer never reads instance '
-          'state left by an earlier call (havoc of attributes stored outside __init__); observers emit no mutation event on '
-          'objects reachable from the tree; no memoised function returns a mutable value.'),
+          'state left by an earlier call (havoc of attributes stored outside __init__); observers (including reads of every '
+          'property and typed option attribute, whose getters are executed) emit no mutation event on objects reachable from the tree; no memoised function returns a mutable value.'),
     note=('Shows absence of aliasing and of writes on the modelled heap, not value equality of snapshots. The streaming '
           'writer is stubbed while the DOM writer is analysed as observer (its own argument handling is covered by C09).'),
     technique='ownership/alias analysis over an abstract heap + effect (mutation-event) analysis + decorator lint')
@@ -115,7 +115,8 @@ CLAIMED['C17'] = dict(
           'the kept slice is chunk[:i+1] for the tested find() result and seek offset + len(chunk) - kept == 0 as linear '
           'forms with whence=SEEK_CUR; in the not-found branch the whole block is appended and nothing is given back; EOF is '
           'signalled only by an empty read; every call site passes a one-byte constant delimiter; the block size is used '
-          'only as the size of read(); two stream consumers only and no reader attribute holding read-ahead bytes. (A '
+          'only as the size of read(); two stream consumers only and no reader attribute holding read-ahead bytes; no slice or '
+          'bounded search with a constant bound over input text on the content path (content lines of any length). (A '
           'readline-style helper is accepted when its non-EOF result is known to end with the delimiter.)'),
     note=('The induction over iterations (bytes returned = stream from entry position through the first delimiter, position '
           'just past it, for any block size) is argued in DESIGN.md, not machine-checked. Stream semantics are trusted.'),
@@ -165,7 +166,8 @@ CLAIMED['C03'] = dict(
           'DiffXParseError); the per-kind interpretation table (options consumed, bytes vs text, diffs never inherit, indent '
           'only for preambles); indentation stripped per line of the newline split before decoding, nothing trimmed; '
           'first-line detection of line endings; nearest-declared-encoding scopes over all histories (K1); blank-line '
-          'skipping and one record per header.'),
+          'skipping and one record per header; line accounting (record line = the reader counter at its header, +1 per '
+          'header, + len(split_lines(raw content, section newline)) per content block, no other writer).'),
     note='Equality of yielded content/options with an independent reading of the specification on concrete files is undecided.',
     technique='guard/value-set extraction by abstract interpretation + table comparison with folded option sets')
 CLAIMED['C07'] = dict(
